@@ -338,7 +338,7 @@ func init() {
 			r.Try(func() { ruleAtomicRMW(w, r, "R02.10", la) })
 			r.Rule("R02.11", 1, "a failed construction leaves no trace and may be retried: no error exit of resolve is reachable with state recorded by resolve or its helpers and not retired")
 			r.Try(func() { ruleResolveWritesNothing(w, r, "R02.11") })
-			r.Rule("R02.16", 2, "a resolution runs on the caller's goroutine: the container starts no goroutine other than the per-scope context watchers (a construction the caller gave up on would still fill the cache later)")
+			r.Rule("R02.16", 1, "a resolution runs on the caller's goroutine: the container starts no goroutine other than the per-scope context watchers (a construction the caller gave up on would still fill the cache later)")
 			r.Try(func() { reexport(w, r, "R02.16", func(sub *Report) { checkGoStatements(w, sub) }, "R09.4") })
 			r.Rule("R02.17", 2, "every output of a constructor call is stored whatever its value: the fan-out loops skip no output because of what was produced (an unstored output is constructed again and its siblings are overwritten)")
 			r.Try(func() { ruleFanOut(w, r, "R02.17") })
